@@ -35,6 +35,7 @@ HERE = os.path.dirname(os.path.abspath(__file__))
 ENGINE_PY = os.path.join(HERE, "lattice_engine.py")
 CRASH_RC = 77
 _REAL_OPEN = builtins.open
+_REAL_REPLACE = os.replace
 
 WRITE_EVENTS = ("os.mkdir", "os.rmdir", "os.remove", "os.rename", "open", "os.truncate", "os.link",
                 "os.symlink", "shutil.copyfile", "shutil.rmtree")
@@ -133,6 +134,8 @@ class RecFile:
         self._real, self._ev, self._bin = real, ev, binary
         self._h = hashlib.sha1()
         self._n = 0
+        self.closed = False
+        self.path = ev["path"]
         self._keep = [] if ev["path"].startswith(("restart.toml", "infretis_data")) else None
 
     def write(self, s):
@@ -152,6 +155,7 @@ class RecFile:
         self._ev["sha"] = self._h.hexdigest()[:12]
         if self._keep is not None:
             self._ev["text"] = b"".join(self._keep).decode("utf8", "replace")
+        self.closed = True
         return self._real.close()
 
     def __enter__(self):
@@ -177,6 +181,8 @@ class Tracer:
         self.last_open_ev = None
         self.info = {}
         self.inflight_fn = None
+        self.after_armed = False      # die as soon as the real call of effect k has returned
+        self.recs = []                # pass-through proxies of files opened for writing
 
     # -- helpers
     def rel(self, p):
@@ -200,6 +206,8 @@ class Tracer:
         return tags
 
     def die(self, how, extra=None):
+        self.after_armed = False
+        self.enabled = False
         self.info["crashed"] = {"how": how, **(self.crash or {}), **(extra or {})}
         self.dump()
         os._exit(CRASH_RC)
@@ -209,7 +217,7 @@ class Tracer:
         out = {"events": self.events, **self.info}
         with _REAL_OPEN(self.result_file + ".tmp", "w") as f:
             json.dump(out, f, default=str)
-        os.replace(self.result_file + ".tmp", self.result_file)
+        _REAL_REPLACE(self.result_file + ".tmp", self.result_file)
 
     # -- audit hook
     def hook(self, event, args):
@@ -250,8 +258,14 @@ class Tracer:
                 pass
         else:
             ev = {"op": event, "path": str(args[0])}
+        if self.after_armed:
+            # the effect we were to die after went through a call we do not wrap: die now, before the next one
+            self.die("after-late")
         k = len(self.events)
         ev["k"] = k
+        still_open = [r.path for r in self.recs if not r.closed]
+        if still_open:
+            ev["open_handles"] = still_open   # written data of these files is still in Python's buffer
         ev["tags"] = self.stack_tags()
         st = self.state
         if st is not None:
@@ -262,6 +276,12 @@ class Tracer:
         if self.crash is not None and k == self.crash["k"]:
             if self.crash["mode"] == "before":
                 self.die("before")
+            if self.crash["mode"] == "after":
+                if ev["op"] in ("open-w", "open-a"):
+                    self.armed = "trunc"          # right after the open has returned
+                else:
+                    self.after_armed = True       # the wrappers below die when the real call has returned
+                return
             if ev["op"] in ("open-w", "open-a"):
                 self.armed = self.crash["mode"]
             else:   # trunc/half asked for a non-open effect: treat as before (never scheduled)
@@ -280,8 +300,28 @@ class Tracer:
             return HalfFile(f, self, "b" in mode)
         ev = self.last_open_ev
         if ev is not None and self.enabled and not self.masked:
-            return RecFile(f, ev, "b" in mode)
+            r = RecFile(f, ev, "b" in mode)
+            self.recs.append(r)
+            return r
         return f
+
+    def wrap_os(self):
+        """os-level effects: `os._exit` immediately AFTER the real call has returned (crash mode "after").
+        Buffered data of files that are still open is lost, as in a real hard kill."""
+        import os as _os
+
+        def wrap(fn):
+            def w(*a, **kw):
+                try:
+                    return fn(*a, **kw)
+                finally:
+                    if self.after_armed:
+                        self.die("after")
+            w.__name__ = getattr(fn, "__name__", "wrapped")
+            return w
+
+        for name in ("mkdir", "rmdir", "remove", "unlink", "rename", "replace"):
+            setattr(_os, name, wrap(getattr(_os, name)))
 
 
 def install(tracer, completion="fifo"):
@@ -379,6 +419,7 @@ def child_main(job):
     tr = Tracer(root, job["result"], job.get("crash"))
     sys.addaudithook(tr.hook)
     builtins.open = tr.open
+    tr.wrap_os()
     import logging
     logging.disable(logging.CRITICAL)
     from infretis.setup import setup_config
